@@ -47,7 +47,7 @@ const (
 
 // call orders on one write descriptor (w Write, t Truncate, f Flush; Close at the end)
 var fdScripts = []string{"wft", "ft", "tfw"}
-var fdScriptsThorough = []string{"fw", "wfw", "tft", "fft", "ftw", "fwt", "wtf"}
+var fdScriptsThorough = []string{"fw", "wfw", "tft", "fwt"}
 
 var theRun *eng.Run
 var thorough bool
@@ -1058,7 +1058,8 @@ func specs(r *eng.Run) []eng.SeqSpec {
 		}
 	}
 	return []eng.SeqSpec{
-		{Configs: append(append([]string{}, baseCfgs...), obsCfg), New: newSys, Depth: 4},
+		{Configs: baseCfgs, New: newSys, Depth: 4},
+		{Configs: []string{obsCfg}, New: newSys, Depth: 3},
 		{Configs: []string{pop[0], pop[2], pop[3], obsCfg + ",init=pop"}, New: newSys, Depth: 2},
 		{Configs: []string{pop[1]}, New: newSys, Depth: 3},
 	}
